@@ -48,6 +48,12 @@ CHECKS = {
         text='Theorems about the code-shaped models, for all histories: inserting samples inside the interval of consecutive samples or repeating samples leaves the filter output and hence all seven cycle counts, the level-crossing count (incl. its default level grid) and the peak count unchanged; adding a constant leaves all range tables unchanged and scaling by c>0 scales every range by c (all seven counters; events of level crossing / peak counting move with the load); negation leaves simple-range, rainflow, range-pair, four-point unchanged; time reversal leaves simple-range unchanged. Time reversal for rainflow / four-point / Rychlik is NOT proved (C03.ReverseStatement is a def): it is tested on all small histories plus random ones. The metamorphic relations are evaluated on the implementation for all nine functions.',
         note='Trusted: Lean kernel + standard axioms; models tied to /repo/src by the exact correspondence run in checks C02 and C05; integer scale factors and offsets on the dyadic grid stand for real c>0 and offsets (exact arithmetic).',
         ref='§5 C03'),
+    'C04': dict(
+        engine='list',
+        technique='Lean 4 proof of supporting theorems (repeating count = forward pass of range-pair for histories starting at the maximum; equal totals on odd reversal counts) + Lean predicates for all six clauses evaluated on the implementation over random and all small histories (a test)',
+        text='PARTIAL. The six clauses (agreement on closed histories, four-point minus the closing cycle, cut independence, residue identity, no-tie equality, containment) are stated in full as Lean propositions but NOT proved; each is decided on the implementation by an executable Lean predicate over random tie-rich histories, every cut of each period, and all histories of length <= 6 over 4 values (quick) / <= 8 over 5 (thorough). Proved for all histories: a history starting at its maximum is counted by the repeating-history method exactly as by the forward pass of range-pair counting (so range-pair = repeating count ++ backward-pass cycles), and with an odd number of reversals rainflow and range-pair count the same total.',
+        note='Trusted: Lean kernel + standard axioms for the supporting theorems; the six clause statements are tested, not proved; models tied to /repo/src by the exact correspondence of check C02.',
+        ref='§5 C04'),
 }
 
 NOT_YET = {}
